@@ -505,7 +505,8 @@ class ExprMixin:
         res = z3.Const(fresh_name('setop'), kind.sorts()[0])
         A, Bm = z3.Select(a.t[0], k), z3.Select(b.t[0], k)
         body = {'|': z3.Or(A, Bm), '&': z3.And(A, Bm), '-': z3.And(A, z3.Not(Bm)), '^': z3.Xor(A, Bm)}[op]
-        st.assume(z3.ForAll([k], z3.Select(res, k) == body, patterns=[z3.Select(res, k)]))
+        # membership in an operand triggers the definition too (x in A  =>  what about x in A - B ?)
+        st.assume(z3.ForAll([k], z3.Select(res, k) == body, patterns=[z3.Select(res, k), A, Bm]))
         return SVal(kind, [res])
 
     def list_concat(self, a, b):
